@@ -4,9 +4,11 @@ import json, os
 V = os.path.dirname(os.path.dirname(os.path.abspath(__file__)))
 props = [json.loads(l) for l in open(os.path.join(V, "properties.jsonl"))]
 
+SCAN_NOTE = "Trusted: Coq kernel, extraction, harness, fakegit; git's traversal enters as the contract (duplicate-free, exactly the reachable set, commits before parents), evaluated (contract_b) on every real and generated enumeration. Guard 'small' (no object size / name length / entry count >= 2^32-1) is necessary (C05_narrow_then_wide_refuted). The work-list fuel of the model is excluded in the statement (result is SOk or the explicit out-of-fuel value)."
+
 CLAIMS = {
  "C05": dict(
-   text="Theorems in coq/theories/Properties/C05.v state Plus/Increment = min(a+b,cap), NewCount32 = min(n,2^32-1), the overflow flag and the running-max laws for ALL operands, about definitions regenerated from counts/counts.go on every run; the Go functions are additionally run against the extracted model on boundary and random operands.",
+   text="Theorems in coq/theories/Properties/C05.v state Plus/Increment = min(a+b,cap), NewCount32 = min(n,2^32-1), the overflow flag and the running-max laws for ALL operands, about definitions regenerated from counts/counts.go on every run; the Go functions are additionally run against the extracted model on boundary and random operands. C05_composed (= scan_correct) lifts this to every reported quantity; git bombs (up to depth 64) and >= 4 GiB objects are run through fakegit against the exact big-integer specification.",
    note="Trusted: Coq kernel, go2coq + GoSem.v, extraction (ExtrOcamlBasic), the differential harness. Wall-clock linearity is observed, not proved.",
    technique="Coq proof over translator-generated definitions + differential correspondence"),
  "C12": dict(
@@ -17,6 +19,22 @@ CLAIMS = {
    text="Theorems in Properties/C16.v: parse(serialise(entries)) = entries for every tree entry list (modes < 2^32 printed in octal, names without NUL, 20-byte ids), and totality on arbitrary bytes (never Panic) for the tree, commit, tag, for-each-ref line and cat-file header parsers, on a model that makes every Go slice/index operation partial. Tied to the code by differential runs (generated objects, every truncation, byte mutations) with panic recovery, plus a generator-side round-trip oracle. The header-extraction theorem for commits/tags (continuation lines, message) is checked by the generator oracle but not yet proved.",
    note="Trusted: Coq kernel, extraction, harness; strconv.ParseUint/hex.DecodeString/strings.Split modelled. ParseBatchHeader panicked on short lines before fix ec7f98a (C16_batch_header_old_refuted).",
    technique="Coq proof on hand-written executable model + differential correspondence with fuzzing"),
+
+ "C01": dict(
+   text="Theorem C01_census_exact (via scan_correct, ~2500 lines of Coq): for every well-formed repository (objects as a creation history), every root selection and every enumeration satisfying the contract, the model of ScanRepositoryUsingGraph returns the saturated counts/sizes of exactly the set reachable over parent/tree/entry(non-gitlink)/tag edges; C01_reachable_is_reach ties the executable reachable set to the inductive relation. The model is tied to the code by CLI runs (fakegit with random legal orders, real git loose/packed) compared field by field with model and specification.",
+   note=SCAN_NOTE, technique="Coq proof (invariant of the deferred-listener machine + permutation invariance) + differential correspondence via fakegit/real git"),
+ "C02": dict(
+   text="Theorem C02_maxima: the four max_* fields equal the saturated maxima over reachable objects of the kind, for every enumeration order (position of the maximum, ties); maxN characterised as an attained upper bound. Correspondence runs place extremal objects first/last/middle with ties.",
+   note=SCAN_NOTE, technique="Coq proof + differential correspondence"),
+ "C03": dict(
+   text="Theorems C03_depths, C03_cdepth_is_longest_chain, C03_tdepth_is_longest_chain, C03_no_panic: history depth = length of the longest parent chain (existence + maximality over an inductive chain predicate), tag depth likewise, for every contract-satisfying enumeration (timestamps do not occur in the model; they only select which legal order git uses) and every tag delivery order. Correspondence: DAG shapes with skewed dates under real git, all tag permutations under fakegit.",
+   note=SCAN_NOTE, technique="Coq proof + differential correspondence"),
+ "C04": dict(
+   text="Theorems C04_checkout and C04_expansion: each of the seven checkout values is the saturated maximum over reachable trees of the metric of the tree's full recursive expansion (explicit list of every occurrence; directory count includes the tree; path length over '/'-joined components), proved via compositional metrics = metrics of expansion and saturation homomorphism through the memoised listener machine.",
+   note=SCAN_NOTE + " C04_expansion assumes entry names are non-empty (git never writes empty names).", technique="Coq proof + differential correspondence"),
+ "C09": dict(
+   text="Theorems C09_order_independent, C09_root_order_irrelevant, C09_aggregation_order_free, C09_nothing_pending: any two contract-satisfying enumerations and root orders give identical numbers and no record remains pending. Correspondence: every permutation of trees+tags for small graphs, random legal orders, ROOT order, and real git loose/repacked/packed-refs.",
+   note=SCAN_NOTE + " Storage layout is covered by sampling only (partial).", technique="Coq proof + permutation exploration via fakegit + real-git layouts"),
 }
 
 m = {
